@@ -589,6 +589,110 @@ example : dests ⟨[none, some 0, some 0, some 1, some 1]⟩ 1 .children = [3, 4
     dests ⟨[none, some 0, some 0, some 1, some 1]⟩ 1 .bcast = [0, 2, 3, 4] ∧
     dests ⟨[none, some 0, some 0, some 1, some 1]⟩ 0 .parent = [] := by decide
 
+/-! #### failing calls: who gets the message and what the operation returns (`Send.outcome`, `Send.sendx`) -/
+
+theorem zipIdx_map_fst {α : Type} (l : List α) (k : Nat) : (l.zipIdx k).map (·.1) = l := by
+  induction l generalizing k with
+  | nil => rfl
+  | cons a l ih => simp [List.zipIdx_cons, ih]
+
+theorem filter_length_add {α : Type} (p : α → Bool) (l : List α) :
+    (l.filter fun a => !p a).length + (l.filter p).length = l.length := by
+  induction l with
+  | nil => rfl
+  | cons a l ih => cases h : p a <;> simp [List.filter_cons, h] <;> omega
+
+theorem takeWhile_all {α : Type} (p : α → Bool) (l : List α) (h : ∀ a ∈ l, p a = true) : l.takeWhile p = l := by
+  induction l with
+  | nil => rfl
+  | cons a l ih =>
+    have ha := h a (by simp)
+    simp only [List.takeWhile_cons, ha, if_true]
+    rw [ih (fun b hb => h b (by simp [hb]))]
+
+/-- **every addressed node gets exactly one envelope or exactly one error** (`Broadcast`, `Multicast`,
+`SendToChildrenInParallel`): the calls that succeed and the calls that fail partition the destination list — the nodes
+that get the message are the destinations at the non-failing positions, in order; the number of errors returned is the
+number of failing positions; together they are as many as the operation addresses. -/
+theorem c01_sendx_all_partition (f : Fault) (ds : List Nat) :
+    (outcome .all f ds).1 = ((ds.zipIdx.filter fun p => !f.fails p.2).map (·.1)) ∧
+    (outcome .all f ds).2 = (ds.zipIdx.filter fun p => f.fails p.2).length ∧
+    (outcome .all f ds).1.length + (outcome .all f ds).2 = ds.length ∧
+    (outcome .all f ds).1.Sublist ds := by
+  refine ⟨rfl, rfl, ?_, ?_⟩
+  · simp only [outcome, okCalls, badCalls, List.length_map]
+    have h := filter_length_add (fun p : Nat × Nat => f.fails p.2) ds.zipIdx
+    simp only [List.length_zipIdx] at h
+    exact h
+  · simp only [outcome, okCalls]
+    have h1 : ((ds.zipIdx.filter fun p => !f.fails p.2).map (·.1)).Sublist (ds.zipIdx.map (·.1)) :=
+      (List.filter_sublist).map _
+    rwa [zipIdx_map_fst] at h1
+
+/-- **the sequential operations stop at the first error** (`SendToChildren`; `SendTo`, `SendToParent` with their one
+destination): the nodes that get the message are a prefix of the destination list — everything before the first
+failing call, nothing after it —, at most one error is returned, and none exactly when every destination got it. -/
+theorem c01_sendx_seq_prefix (f : Fault) (ds : List Nat) :
+    (outcome .seq f ds).1 <+: ds ∧ (outcome .seq f ds).2 ≤ 1 ∧
+    ((outcome .seq f ds).2 = 0 ↔ (outcome .seq f ds).1 = ds) := by
+  have hp : ((ds.zipIdx.takeWhile fun p => !f.fails p.2).map (·.1)) <+: ds := by
+    have h1 : (ds.zipIdx.takeWhile fun p => !f.fails p.2) <+: ds.zipIdx := List.takeWhile_prefix _
+    have h2 := h1.map (·.1)
+    rwa [zipIdx_map_fst] at h2
+  refine ⟨hp, ?_, ?_⟩
+  · simp only [outcome]; split <;> omega
+  · simp only [outcome]
+    constructor
+    · intro h
+      split at h
+      · rename_i hl; exact hp.eq_of_length hl
+      · omega
+    · intro h
+      rw [h]; simp
+
+/-- **a closing instance sends nothing**: every call fails — no node gets the message; the collecting operations
+return one error per destination, the sequential ones one error (none when there is nothing to address: a leaf's
+`SendToChildren`, the root's `SendToParent`). -/
+theorem c01_sendx_closing (bad : List Nat) (ds : List Nat) :
+    (outcome .all ⟨true, bad⟩ ds) = ([], ds.length) ∧
+    (outcome .seq ⟨true, bad⟩ ds) = ([], if ds = [] then 0 else 1) := by
+  constructor
+  · have h := filter_length_add (fun _ : Nat × Nat => true) ds.zipIdx
+    simp only [List.length_zipIdx] at h
+    have h0 : (ds.zipIdx.filter fun _ : Nat × Nat => false) = [] := by
+      apply List.filter_eq_nil_iff.mpr; intro a _; simp
+    have h0' : (List.filter (fun a : Nat × Nat => !(fun _ : Nat × Nat => true) a) ds.zipIdx) = [] := by
+      apply List.filter_eq_nil_iff.mpr; intro a _; simp
+    rw [h0'] at h
+    simp [outcome, okCalls, badCalls, Fault.fails]
+    simpa using h
+  · cases ds with
+    | nil => simp [outcome]
+    | cons a l => simp [outcome, Fault.fails, List.zipIdx_cons, List.takeWhile_cons]
+
+/-- **without a fault the operation reaches exactly its destinations and returns no error** — the nodes of
+`c01_send_children_exact`, `c01_send_parent_exact`, `c01_send_bcast_exact`, `c01_send_to_exact` -/
+theorem c01_sendx_no_fault (t : Tree) (me : Nat) (p : Pattern) (par : Bool) :
+    sendx t me p par {} = (dests t me p, 0) := by
+  have hz : ∀ (l : List (Nat × Nat)), (l.filter fun p => !(({} : Fault).fails p.2)) = l := by
+    intro l; apply List.filter_eq_self.mpr; intro a _; simp [Fault.fails]
+  have hb : ∀ (l : List (Nat × Nat)), (l.filter fun p => (({} : Fault).fails p.2)) = [] := by
+    intro l; apply List.filter_eq_nil_iff.mpr; intro a _; simp [Fault.fails]
+  have ht : ∀ (l : List (Nat × Nat)), (l.takeWhile fun p => !(({} : Fault).fails p.2)) = l := by
+    intro l; apply takeWhile_all; intro a _; simp [Fault.fails]
+  unfold sendx
+  cases Pattern.mode p par with
+  | all => simp [outcome, okCalls, badCalls, hz, hb, zipIdx_map_fst]
+  | seq => simp [outcome, ht, zipIdx_map_fst]
+
+/-- non-vacuity: node 1 of a five-node tree multicasts to 3, nil, 4, nil, 0: three nodes get it, two errors; its
+`SendToChildren` with the second call failing reaches the first child only; the variant that goes on after an error
+would reach [3, 5] (negation witness for "stops at the first error": the `all` outcome differs) -/
+example : sendx ⟨[none, some 0, some 0, some 1, some 1]⟩ 1 (.multi [3, 9, 4, 9, 0]) false { bad := [1, 3] } = ([3, 4, 0], 2) ∧
+    sendx ⟨[none, some 0, some 0, some 1, some 1, some 1]⟩ 1 .children false { bad := [1] } = ([3], 1) ∧
+    sendx ⟨[none, some 0, some 0, some 1, some 1, some 1]⟩ 1 .children true { bad := [1] } = ([3, 5], 1) ∧
+    sendx ⟨[none, some 0, some 0, some 1, some 1]⟩ 0 .bcast false { closing := true } = ([], 4) := by decide
+
 end Send
 
 /-! ### the `transmitMux` region: one instance per token, every message to that instance -/
